@@ -15,6 +15,8 @@
 //        writer carries exactly the entry's sequence number / id / token and the registry's retire_prior_to
 //        (ncid_frame_is_entry, ncid_frame_rpt_is_registry) and the entry becomes PendingAcknowledgement iff the
 //        frame was written (lid_transmit_entry_post)
+//   * on_packet_ack / on_packet_loss: loop bodies (lid_ack_entry_post / lid_loss_entry_post: the reset token is
+//        forgotten only on acknowledgement, a lost frame is re-issued unchanged)
 //   * retire_handshake_connection_id: body of the `if let Some(handshake_id_info) = ..find(seq == 0 && !retired)`
 //   * register_connection_id: the statements from `let sequence_number = self.next_sequence_number;` to
 //        `self.next_sequence_number += 1;`   -> consecutive sequence numbers, entry pushed as PendingIssuance
@@ -55,7 +57,9 @@ pub struct IdBytes { pub len: u8, pub a: u64, pub b: u64 }
 pub struct Token { pub a: u64, pub b: u64 }
 pub struct TokenRef { pub a: u64, pub b: u64 }
 pub struct TokenArr { pub a: u64, pub b: u64 }
+pub mod stateless_reset { pub type Token = super::Token; }
 impl Token {
+    pub const ZEROED: Token = Token { a: 0, b: 0 };
     // `<Token as AsRef<[u8]>>::as_ref` then `<&[u8] as TryInto<&[u8; 16]>>::try_into` (std; always Ok for a 16-byte token)
     #[verifier::external_body]
     pub fn as_ref(&self) -> (r: TokenRef) ensures r.a == self.a, r.b == self.b { unimplemented!() }
@@ -97,6 +101,12 @@ impl WriteContextX {
                 tok_a: f.stateless_reset_token.a as int, tok_b: f.stateless_reset_token.b as int }),
             final(self).wrote@ == r is Some,
     { unimplemented!() }
+}
+
+pub struct AckSetX { pub set: Ghost<Set<int>> }
+impl AckSetX {
+    #[verifier::external_body]
+    pub fn contains(&self, pn: PacketNumber) -> (r: bool) ensures r == self.set@.contains(pn.v as int) { unimplemented!() }
 }
 
 pub struct LocalIdInfo {
@@ -207,6 +217,31 @@ impl LocalIdRegistry {
             final(self).registered_ids == old(self).registered_ids,
     {
 //@ splice-stmts quic/s2n-quic-transport/src/connection/local_id_registry.rs "LocalIdRegistry" on_transmit "from=for id_info in self" inner=1 "subst=frame::NewConnectionId=>NewConnectionIdX@@.into()=>.to_varint()"
+    }
+
+    // ---- on_packet_ack / on_packet_loss: one element of `for id_info in self.registered_ids.iter_mut()` ------------------
+    fn on_packet_ack_loop_body(&mut self, id_info: &mut LocalIdInfo, ack_set: &AckSetX)
+        ensures
+            // only an id whose NEW_CONNECTION_ID frame was acknowledged becomes Active and forgets its reset token
+            lid_ack_entry_post(abs_e(*old(id_info)), match old(id_info).status { PendingAcknowledgement(pn) => ack_set.set@.contains(pn.v as int), _ => false }, abs_e(*final(id_info))),
+            final(self).retire_prior_to == old(self).retire_prior_to,
+            final(self).next_sequence_number == old(self).next_sequence_number,
+            final(self).active_connection_id_limit == old(self).active_connection_id_limit,
+            final(self).registered_ids == old(self).registered_ids,
+    {
+//@ splice-stmts quic/s2n-quic-transport/src/connection/local_id_registry.rs "LocalIdRegistry" on_packet_ack "from=for id_info in self" inner=1
+    }
+
+    fn on_packet_loss_loop_body(&mut self, id_info: &mut LocalIdInfo, ack_set: &AckSetX)
+        ensures
+            // a lost NEW_CONNECTION_ID frame is re-issued with the SAME id, sequence number and token
+            lid_loss_entry_post(abs_e(*old(id_info)), match old(id_info).status { PendingAcknowledgement(pn) => ack_set.set@.contains(pn.v as int), _ => false }, abs_e(*final(id_info))),
+            final(self).retire_prior_to == old(self).retire_prior_to,
+            final(self).next_sequence_number == old(self).next_sequence_number,
+            final(self).active_connection_id_limit == old(self).active_connection_id_limit,
+            final(self).registered_ids == old(self).registered_ids,
+    {
+//@ splice-stmts quic/s2n-quic-transport/src/connection/local_id_registry.rs "LocalIdRegistry" on_packet_loss "from=for id_info in self" inner=1
     }
 
     // ---- register_connection_id: issue the next sequence number ---------------------------------------------------
